@@ -1,6 +1,6 @@
 (* Property C05 — serialization and persistence round trip.  Statements only; proofs in Proofs/. *)
 From PG Require Import Common.Tactics Model.Json Model.MemFS Model.MemSeq Proofs.JsonProofs Proofs.JsonStrProofs
-  Proofs.MemFSPaths Proofs.MemFSTree Proofs.MemFSProofs Proofs.MemSeqProofs.
+  Proofs.MemFSPaths Proofs.MemFSTree Proofs.MemFSProofs Proofs.MemFSPure Proofs.MemSeqProofs.
 
 (* Object form: pg.from_json (pg.to_json v) is v, for every value outside the reserved encodings. *)
 Theorem C05_json_roundtrip : forall q ct v, no_quirks q -> ct_ok ct = true -> ser_ok ct v = true ->
@@ -117,6 +117,18 @@ Theorem C05_memfs_removed_stays_removed : forall root h p t1 p' t2, wf_node root
   exists e, read_file (run_fs root h) p = FErr e.
 Proof. exact removed_stays_removed. Qed.
 Print Assumptions C05_memfs_removed_stays_removed.
+
+(* The pure form (DESIGN.md): over any family of paths none of which runs through another one, for every
+   history of save / rm / read / exists / listdir / isdir from the empty file system, every save succeeds and
+   reading a path gives the last text saved at a path with the same components: a function of the history alone. *)
+Theorem C05_memfs_read_your_writes_pure : forall F, family_ok F -> forall h, Forall (family_op F) h ->
+  (forall o out, In (o, out) (trace_of empty_fs h) -> is_save o = true -> out = RUnit) /\
+  forall p, match last_saved h (components p) with
+            | Some c => read_file (run_fs empty_fs h) p = FOk c
+            | None => exists e, read_file (run_fs empty_fs h) p = FErr e
+            end.
+Proof. exact read_your_writes_pure. Qed.
+Print Assumptions C05_memfs_read_your_writes_pure.
 
 (* pg.load returns the last value saved (string form of C05_str_roundtrip written to the file). *)
 Theorem C05_memfs_load_last_saved : forall (dumps : jv -> str) (loads : str -> option jv),
